@@ -36,7 +36,11 @@ def _case(rng):
         r = rng.random()
         n = rng.randint(1, 7)
         if r < 0.45: ops.append({'op': 'sample', 'n': n, 'shuffle': rng.choice([0, 0, 5]), 'override': rng.random() < 0.3})
-        elif r < 0.85: ops.append({'op': 'crop', 'n': n, 'bs': rng.randint(1, n + 1), 'shuffle': rng.choice([0, 0, 5]), 'override': rng.random() < 0.2})
+        elif r < 0.85:
+            ops.append({'op': 'crop', 'n': n, 'bs': rng.randint(1, n + 1), 'shuffle': rng.choice([0, 0, 5]), 'override': rng.random() < 0.2})
+            # a quarter of the crops are grown the way the cluster scripts do it: each batch by a pool of workers, the
+            # samples of a batch taking different times (completion order != order in the batch)
+            if ops[-1]['bs'] >= 2 and n >= 3 and rng.random() < 0.25: ops[-1]['workers'] = True
         elif r < 0.92: ops.append({'op': 'new'})
         else: ops.append({'op': 'switch'})
     if not any(o['op'] not in ('new', 'switch') for o in ops): ops.append({'op': 'sample', 'n': 2, 'shuffle': 0, 'override': False})
@@ -62,7 +66,7 @@ def cases(ctx):
             out.append(c)
     for c in out:
         ctx.count('engine', c['engine']); ctx.count('runs', len([o for o in c['ops'] if o['op'] not in ('new', 'switch')]))
-        for o in c['ops']: ctx.count('op', o['op'])
+        for o in c['ops']: ctx.count('op', o['op'] + (' (worker pool)' if o.get('workers') else ''))
     return out
 
 
@@ -128,7 +132,16 @@ def run_real(c, ctx):
                         crop.shuffle = op.get('shuffle') or False
                         a0 = sw['case_args'][0]
                         crop.sow_samples(op['n'], verbosity=0, **({'combos': {a0: list(_override(sw, a0))}} if op.get('override') else {}))
-                        crop.grow_missing(verbosity=0)
+                        if op.get('workers'):
+                            from xyzpy.gen import cropping
+                            import fns
+                            os.environ[fns.STAGGER_ENV] = '0.04'; os.environ[fns.STAGGER_SPREAD_ENV] = '1'
+                            try:
+                                for b in crop.missing_results(): cropping.grow(b, crop=crop, num_workers=2, verbosity=0)
+                            finally:
+                                os.environ.pop(fns.STAGGER_ENV, None); os.environ.pop(fns.STAGGER_SPREAD_ENV, None)
+                        else:
+                            crop.grow_missing(verbosity=0)
                         last = crop.reap()
                         o['last'] = labelled.canon_df(last); o['last_is'] = smp.last_df is last
                 o['mem'] = labelled.canon_df(smp.full_df) if smp.full_df is not None else None
